@@ -54,7 +54,7 @@ func runC12(r *Run) {
 		{F: "verifier.(*accountBlockVerifier).all", C: "ne(nil,recv.pow())", Why: "the PoW check is wired"},
 		{F: "vm.GetBasePlasmaForAccountBlock", C: "lt(16384,len(a1.Data)) @ F(a1.IsReceiveBlock()) & F(types.IsEmbeddedAddress(a1.Address)) & eq(constants.ErrNotContractAddress,$m#1)", Why: "data length is bounded"},
 		{F: "vm.GetBasePlasmaForAccountBlock", C: "ne($m#1,nil) @ F(a1.IsReceiveBlock()) & F(types.IsEmbeddedAddress(a1.Address)) & ne(constants.ErrNotContractAddress,$m#1)", Why: "unknown contract method has no price ⇒ reject"},
-		{F: "pow.greaterDifficulty", C: "lt(a0[iter],a1[iter])", Why: "a hash byte below the target byte (scanning from the most significant) fails"},
+		{F: "pow.greaterDifficulty", C: "lt(a0[iter],a1[iter]) @ le(a0[iter],a1[iter])", Why: "a hash byte below the target byte (scanning from the most significant) fails"},
 		{F: "chain/account.(*accountStore).AddChainPlasma", C: "ne(nil,recv.GetChainPlasma()#1)", Why: "read failure rejects"},
 	})
 	ep := "vm.enoughPlasma"
